@@ -96,6 +96,9 @@ def _worker(args):
             if len(agg["samples"]) < 1:
                 agg["samples"].append(chk.sample_view(scenario))
         for v in res.violations:
+            if v["property"] != cid:
+                agg["probes"]["foreign-violation:%s" % v["clause"]] += 1
+                continue
             k = core.vkey(v)
             seen_v[k] += 1
             if seen_v[k] <= 2:
